@@ -7,7 +7,13 @@ ids = [json.loads(l)["id"] for l in open("/verif/properties.jsonl")]
 checks = []
 for pid in ids:
     if pid in META:
-        m = META[pid]
+        m = dict(META[pid])
+        ev = os.path.join("/verif/evidence", pid + ".json")
+        if os.path.exists(ev):
+            lvl = json.load(open(ev))["level"]
+            if lvl != m["level"]:
+                print("note: %s evidence level %s overrides declared %s" % (pid, lvl, m["level"]))
+                m["level"] = lvl
         checks.append({
             "property_id": pid,
             "quick_cmd": "./check %s --tier quick" % pid,
